@@ -4,6 +4,10 @@ Protocol (model name c16, see lean/PygModel/USetDriver.lean):
   ulist histories over handles: u.new / u.copy / u.add / u.and / u.sub (element or list operand) / u.addh / u.andh / u.subh
   dictattr key algebra, stateless: d.sub d.and d.getl d.gett d.get d.add d.relabel d.keys on (DC <cls> (hexkey v)*)
       cls 1 = pyg_base.Dict, 2 = pyg_base.dictattr, 3 = a subclass of dictattr defined here
+  dictattr histories over handles (heap model lean/PygModel/DAHeap.lean): h.new / h.copy / h.sub / h.and / h.add / h.addh / h.getl /
+      h.relabel allocate a new handle, h.set / h.setattr / h.del / h.delattr write the target in place, h.get / h.getattr / h.gett /
+      h.keys read, h.dump replies with the whole heap.  After EVERY operation (also a failing one) the runner re-reads every handle
+      against its snapshot: only the target of an in-place operation may have changed (frame rule).
   Dict.__call__: (c16 call (D (k I:n)*) (K hexkey I:n | (F I:c hexarg*))*)   the function is lambda args: c + 1*a1 + 2*a2 + ...
 The implementation runner snapshots every operand before an operation and re-reads it afterwards; a changed operand or a
 result of the wrong class is reported in the reply itself (`mutated ...`, `wrongtype ...`) and is a violation.
@@ -15,7 +19,7 @@ from ..engine import Finding
 
 ID = 'C16'
 TITLE = 'ulist, dictattr and Dict implement ordered set/key algebra without side effects'
-LEAN_FILES = ['Basic', 'USet', 'DictCall', 'USetDriver', 'USetLemmas', 'DictCallLemmas', 'C16']
+LEAN_FILES = ['Basic', 'USet', 'DictCall', 'DAHeap', 'USetDriver', 'USetLemmas', 'DictCallLemmas', 'DictCallOrder', 'C16']
 RULE = ('distinct protocol lines on which the implementation returned a value or the error the statement prescribes, '
         'excluding operations on an empty ulist / empty mapping with an empty operand')
 TRUSTED = ['correspondence harness (pv.engine, pv.proto) and the generators / operand snapshots of pv.props.c16',
@@ -23,8 +27,8 @@ TRUSTED = ['correspondence harness (pv.engine, pv.proto) and the generators / op
 ASSUMPTIONS = ['python == / hash on the generated elements (None, ints, quarter floats, strings, tuples of them; no bools, no NaN) is decidable equality after int->float canonicalisation',
                'python dict semantics: insertion order, d[k]=v overwrites in place or appends, dict(**{...}) and update() are successive assignments',
                'kwargs_support(f)(**params) passes exactly the declared arguments by name and raises TypeError when one is missing; generated functions are lambda args: c + 1*a1 + 2*a2 + ... and never declare an argument named key',
-               'attribute access and operand immutability are observed on the implementation (snapshots), not modelled',
-               'tuple paths (d - (a, b)), dotted keys, self-referential callables and relabelling onto an existing key are outside the statement and not generated']
+               'attribute access (getattr/setattr/delattr = item access, AttributeError for KeyError) and in-place writes are modelled on a heap of handles (DAHeap); attribute names are identifiers without a leading underscore that are not attributes of dict; object identity beyond handles (aliasing of values) is not modelled',
+               'tuple paths (d - (a, b)), dotted keys and relabelling onto an existing key are outside the statement and not generated; self-referential callables are outside the acyclic statement and generated for correspondence only (call-selfloop)']
 
 ELEMS = [None, 0, 1, 2, 3, 4, 5, 1.0, 2.0, 2.5, 'a', 'b', 'c', '', (1, 2), (1, 'a'), (2.0, 1), ()]
 KEYS = ['a', 'b', 'c', 'd', 'e', 'x', 'y']
@@ -80,7 +84,7 @@ def rand_da(rng):
 def rand_keysel(rng, d):
     """present / absent / mixed key selections, possibly with repeats"""
     n = rng.choice([0, 1, 1, 2, 3, 4])
-    pres, absn = list(d), [k for k in KEYS + ['zz'] if k not in d]
+    pres, absn = list(d), [k for k in KEYS + ['zz'] if k not in d] or ['zz2']
     mode = rng.choice(['present', 'absent', 'mixed', 'mixed'])
     out = []
     for _ in range(n):
@@ -112,6 +116,76 @@ def gen_da(rng):
     else:
         return dict(tag=op, lines=['(c16 d.keys %s)' % D])
     return dict(tag=op, lines=['(c16 %s %s %s)' % (op, D, arg)])
+
+
+def gen_da_history(rng):
+    """a history of operators / in-place writes / reads over dictattr handles; `shadow` (plain dicts) only serves to pick
+    mostly-valid keys and to know how many handles exist (an operator that raises allocates nothing)"""
+    cls, d = rand_da(rng)
+    lines = ['(c16 h.new %s)' % encd(cls, d)]
+    shadow = [dict(d)]
+    classes = [cls]
+    for _ in range(rng.choice([3, 5, 8, 12])):
+        h = rng.randrange(len(shadow))
+        d = shadow[h]
+        ks = rand_keysel(rng, d)
+        k1 = ks[0] if ks else rng.choice(KEYS + ['zz'])
+        op = rng.choice(['new', 'copy', 'sub', 'sub', 'and', 'add', 'addh', 'getl', 'relabel', 'set', 'set', 'setattr', 'setattr',
+                         'del', 'delattr', 'get', 'getattr', 'gett', 'keys'])
+        if op == 'new':
+            cls2, d2 = rand_da(rng)
+            lines.append('(c16 h.new %s)' % encd(cls2, d2))
+            shadow.append(dict(d2))
+            classes.append(cls2)
+        elif op == 'copy':
+            lines.append('(c16 h.copy %d)' % h)
+            shadow.append(dict(d))
+        elif op == 'sub':
+            arg = ks if rng.random() < 0.6 or not ks else ks[0]
+            lines.append('(c16 h.sub %d %s)' % (h, enc(arg)))
+            shadow.append({k: v for k, v in d.items() if k not in ks[:len(ks) if isinstance(arg, list) else 1]})
+        elif op == 'and':
+            lines.append('(c16 h.and %d %s)' % (h, enc(ks)))
+            shadow.append({k: v for k, v in d.items() if k in ks})
+        elif op == 'add':
+            o = {k: rng.choice(VALS) for k in rng.sample(KEYS, rng.choice([0, 1, 2, 3]))}
+            lines.append('(c16 h.add %d %s)' % (h, enc(o)))
+            shadow.append({**d, **o})
+        elif op == 'addh':
+            # Dict.__add__ is tree_update (C15), for which only exact dict / Dict / dictattr instances are mappings: Dict + an instance
+            # of any other dict subclass raises ValueError('node item too short').  Not generated (see docs/notes/C16.md).
+            gs = [g for g in range(len(shadow)) if not (classes[h] == 1 and classes[g] == 3)]
+            if not gs:
+                continue
+            g = rng.choice(gs)
+            lines.append('(c16 h.addh %d %d)' % (h, g))
+            shadow.append({**d, **shadow[g]})
+        elif op == 'getl':
+            lines.append('(c16 h.getl %d %s)' % (h, enc(ks)))
+            if all(k in d for k in ks):
+                shadow.append({k: d[k] for k in ks})
+        elif op == 'relabel':
+            olds = rng.sample(KEYS, rng.choice([0, 1, 2]))
+            fresh = ['A', 'B', 'C', 'D2']
+            m = {k: fresh[i] for i, k in enumerate(olds) if fresh[i] not in d}
+            lines.append('(c16 h.relabel %d %s)' % (h, enc(m)))
+            shadow.append({m.get(k, k): v for k, v in d.items()})
+        elif op in ('set', 'setattr'):
+            v = rng.choice(VALS)
+            lines.append('(c16 h.%s %d %s %s)' % (op, h, enc(k1), enc(v)))
+            d[k1] = v
+        elif op in ('del', 'delattr'):
+            lines.append('(c16 h.%s %d %s)' % (op, h, enc(k1)))
+            d.pop(k1, None)
+        elif op in ('get', 'getattr'):
+            lines.append('(c16 h.%s %d %s)' % (op, h, enc(k1)))
+        elif op == 'gett':
+            lines.append('(c16 h.gett %d %s)' % (h, enc(tuple(ks if len(ks) != 1 else ks + ks))))
+        else:
+            lines.append('(c16 h.keys %d)' % h)
+        classes += [classes[h]] * (len(shadow) - len(classes))          # an operator's result has the receiver's class
+    lines.append('(c16 h.dump)')
+    return dict(tag='dictattr-history', lines=lines)
 
 
 def call_line(env, kws):
@@ -168,6 +242,24 @@ def gen_call(rng):
     return dict(tag='call-' + kind, lines=[call_line(env, kws)])
 
 
+def gen_call_selfloop(rng):
+    """correspondence only (outside the `Acyclic` theorems, inside `call_keyword_order_independent`): one callable also reads its OWN key.
+    Code and model agree: it is never 'independent'; left alone at the end it is evaluated on the old value of its key (TypeError if there
+    is none), with another callable still pending the loop raises ValueError."""
+    base = rng.sample(['a', 'b', 'c'], rng.choice([1, 2, 3]))
+    env = {k: rng.randrange(-3, 6) for k in base}
+    derived = rng.sample(['p', 'q', 'r', 's'], rng.choice([1, 1, 2, 3, 4]))
+    if rng.random() < 0.5:
+        derived[rng.randrange(len(derived))] = rng.choice(base)          # the self-reading key already has a value
+        derived = list(dict.fromkeys(derived))
+    deps = rand_graph(rng, derived, base, False)
+    k = rng.choice([d for d in derived if d in base] or derived)
+    deps[k] = deps[k] + [k]
+    kws = [(d, (rng.randrange(-2, 4), deps[d])) for d in derived]
+    rng.shuffle(kws)
+    return dict(tag='call-selfloop', lines=[call_line(env, kws)])
+
+
 def all_graphs(n):
     """every dependency graph without self loops on n derived keys p,q,.. (each may also read the base key a)"""
     keys = ['p', 'q', 'r', 's'][:n]
@@ -187,9 +279,14 @@ def generate(rng, tier):
     n = 1200 if tier == 'quick' else 30000
     for _ in range(n):
         yield gen_da(rng)
+    n = 400 if tier == 'quick' else 8000
+    for _ in range(n):
+        yield gen_da_history(rng)
     n = 500 if tier == 'quick' else 12000
     for _ in range(n):
         yield gen_call(rng)
+    for _ in range(n // 5):
+        yield gen_call_selfloop(rng)
     # exhaustive: all graphs on <= 3 (quick) / <= 4 (thorough) derived keys in every keyword order
     for m in ([1, 2, 3] if tier == 'quick' else [1, 2, 3, 4]):
         for keys, deps in all_graphs(m):
@@ -206,7 +303,91 @@ EXHAUSTIVE = {'quick': False, 'thorough': False}
 # ---------------------------------------------------------------- implementation runner
 
 def new_state():
-    return dict(heap=[], snap=[])
+    return dict(heap=[], snap=[], dheap=[], dsnap=[])
+
+
+def _check_dheap(state):
+    for i, (d, (n, s)) in enumerate(zip(state['dheap'], state['dsnap'])):
+        if list(d.items()) != s or type(d) is not _cls(n):
+            return 'mutated handle %d' % i
+    return None
+
+
+def _run_heap(state, op, args):
+    """one operation of a dictattr history on the real objects"""
+    from pyg_base import ulist
+    heap, snap = state['dheap'], state['dsnap']
+    if op == 'h.dump':
+        return _check_dheap(state) or 'ok (H' + ''.join(' ' + encd(n, d) for d, (n, _) in zip(heap, snap)) + ')'
+    if op == 'h.new':
+        n = int(args[0][1])
+        res = _cls(n)({proto.unhex(kv[0]): proto.dec(kv[1]) for kv in args[0][2:]})
+        heap.append(res)
+        snap.append((n, list(res.items())))
+        return 'ok ' + encd(n, res)
+    h = int(args[0])
+    if h >= len(heap) or (op == 'h.addh' and int(args[1]) >= len(heap)):
+        return 'bad-op'                       # dangling handle (only in shrunk cases): refused by the model driver too
+    d, n = heap[h], snap[h][0]
+    cls = _cls(n)
+    k = int(args[1]) if op == 'h.addh' else proto.dec(args[1]) if len(args) > 1 else None
+    inplace = op in ('h.set', 'h.setattr', 'h.del', 'h.delattr')
+    res = None
+    try:
+        if op == 'h.copy':
+            res = d.copy()
+        elif op == 'h.sub':
+            res = d - k
+        elif op == 'h.and':
+            res = d & k
+        elif op == 'h.add':
+            res = d + k
+            alt = d | k
+            if type(alt) is not cls or dict(alt) != dict(res):
+                return 'or-differs-from-add %s' % enc(dict(alt))
+        elif op == 'h.addh':
+            res = d + heap[k]
+        elif op == 'h.getl':
+            res = d[k]
+        elif op == 'h.relabel':
+            res = d.relabel(**k)
+        elif op == 'h.set':
+            d[k] = proto.dec(args[2])
+        elif op == 'h.setattr':
+            setattr(d, k, proto.dec(args[2]))
+        elif op == 'h.del':
+            del d[k]
+        elif op == 'h.delattr':
+            delattr(d, k)
+        elif op in ('h.get', 'h.gett'):
+            res = d[k]
+        elif op == 'h.getattr':
+            res = getattr(d, k)
+        elif op == 'h.keys':
+            res = d.keys()
+            if type(res) is not ulist:
+                return 'wrongtype %s' % type(res).__name__
+            res = list(res)
+        else:
+            return 'bad-op'
+    finally:
+        # frame rule, also when the operation raised: nothing but the target of an in-place operation may change
+        if inplace:
+            snap[h] = (n, list(d.items()))
+        bad = _check_dheap(state)
+        if bad:
+            return bad
+    if inplace:
+        return 'ok ' + encd(n, d)
+    if op in ('h.get', 'h.getattr', 'h.gett', 'h.keys'):
+        return 'ok ' + enc(res)
+    if type(res) is not cls:
+        return 'wrongtype %s' % type(res).__name__
+    if any(res is u for u in heap):
+        return 'aliased result'
+    heap.append(res)
+    snap.append((n, list(res.items())))
+    return 'ok ' + encd(n, res)
 
 
 def _check_heap(state):
@@ -250,6 +431,8 @@ def run_line(state, sx):
         heap.append(res)
         state['snap'].append(list(res))
         return 'ok ' + enc(list(res))
+    if op.startswith('h.'):
+        return _run_heap(state, op, args)
     if op.startswith('d.'):
         n = int(args[0][1])
         cls = _cls(n)
@@ -314,6 +497,8 @@ def _canon_reply(r):
     sx = proto.parse(a[1])
     if isinstance(sx, list) and sx and sx[0] == 'DC':
         return ('DC', sx[1]) + tuple(sorted((kv[0], proto.canon(kv[1])) for kv in sx[2:]))
+    if isinstance(sx, list) and sx and sx[0] == 'H':
+        return ('H',) + tuple(('DC', d[1]) + tuple(sorted((kv[0], proto.canon(kv[1])) for kv in d[2:])) for d in sx[1:])
     return proto.canon(sx)
 
 
@@ -335,6 +520,8 @@ def compare(case, i, line, ir, mr):
 
 
 def nontrivial(line, reply):
+    if reply == 'err Other' and ('h.getattr' in line or 'h.delattr' in line):     # AttributeError for an absent key
+        return True
     if not (reply.startswith('ok') or reply in ('err ValueError', 'err KeyError')):
         return False
     return '(L)' not in line and '(DC 1)' not in line and '(DC 2)' not in line and '(DC 3)' not in line
@@ -402,10 +589,17 @@ def laws(rng, tier, ctx):
         o = {k: rng.choice(VALS) for k in rng.sample(KEYS, rng.choice([0, 1, 2, 3]))}
         case = dict(tag='law-dictattr', lines=['(c16 d.sub %s %s)' % (encd(cls_n, d0), enc(ks)), '(c16 d.and %s %s)' % (encd(cls_n, d0), enc(ks)),
                                                '(c16 d.add %s %s)' % (encd(cls_n, d0), enc(o))])
-        checks = [('-', d - ks, {k: v for k, v in d0.items() if k not in ks}), ('&', d & ks, {k: v for k, v in d0.items() if k in ks}),
-                  ('+', d + o, {**d0, **o}), ('|', d | o, {**d0, **o})]
+        ops = [('-', lambda x: x - ks, {k: v for k, v in d0.items() if k not in ks}), ('&', lambda x: x & ks, {k: v for k, v in d0.items() if k in ks}),
+               ('+', lambda x: x + o, {**d0, **o}), ('|', lambda x: x | o, {**d0, **o})]
         if all(k in d0 for k in ks):
-            checks.append(('[list]', d[ks], {k: d0[k] for k in ks}))
+            ops.append(('[list]', lambda x: x[ks], {k: d0[k] for k in ks}))
+        checks = []
+        for name, f, want in ops:
+            x = cls(d0)                      # a fresh operand per operator: an operator that writes its operand cannot derail the next law
+            checks.append((name, f(x), want))
+            count += 1
+            if dict(x) != d0 or list(x) != list(d0):
+                yield Finding('violation', case, 'dictattr operand modified by %s' % name)
         for name, got, want in checks:
             count += 1
             if type(got) is not cls:
@@ -413,9 +607,10 @@ def laws(rng, tier, ctx):
             elif dict(got) != want:
                 yield Finding('violation', case, 'dictattr %s = %s, expected %s' % (name, enc(dict(got)), enc(want)))
         count += 2
-        if list((d - ks).keys()) != list(d.keys() - ks):
+        x = cls(d0)
+        if list((x - ks).keys()) != list(d.keys() - ks):
             yield Finding('violation', case, '(d - k).keys() != d.keys() - k')
-        if dict(d) != d0 or list(d) != list(d0):
+        if dict(x) != d0 or list(x) != list(d0) or dict(d) != d0 or list(d) != list(d0):
             yield Finding('violation', case, 'dictattr operand modified')
         if ks and all(k in d0 for k in ks) and len(ks) > 1:
             count += 1
